@@ -26,7 +26,7 @@ struct Cfg {
 impl Cfg {
     fn conn(&self) -> ConnectionConfig {
         ConnectionConfig {
-            max_buffer_size: 1 << 20,
+            max_buffer_size: 64 << 20, // well above the largest frame of the large-reply group (a frame above the limit is answered with an error and a close, by design)
             read_buffer_size: self.read_buffer_size,
             min_pipeline_buffer: self.min_pipeline_buffer,
             batch_threshold: self.batch_threshold,
